@@ -1485,3 +1485,180 @@ Proof.
               (with_loc (f_init f) sc) (decode dbg (f_dparams f) (f_fde_off f) (f_fde f))) as [srows [so sfin]].
   destruct Hf as (Hrows & Ho & _). cbn [fst snd]. auto.
 Qed.
+
+(* ---------- H: limited vs unlimited specification ---------- *)
+
+Lemma guard_no_caps ini s : guard no_caps ini s = Ok tt.
+Proof. reflexivity. Qed.
+
+Lemma step_lim_no_caps p ini s i :
+  step_lim no_caps p ini s i = spec_step p ini s i.
+Proof.
+  unfold step_lim. destruct (spec_step p ini s i) as [[s' row]|e| |]; reflexivity.
+Qed.
+
+Definition is_limit (o : outcome) : Prop := o = Fail EStackFull \/ o = Fail ETooManyRegisterRules.
+
+Lemma guard_cases c ini s :
+  guard c ini s = Ok tt \/ guard c ini s = Err EStackFull \/ guard c ini s = Err ETooManyRegisterRules.
+Proof.
+  unfold guard. destruct (over (max_stack c) (stack_occ ini s)); auto.
+  destruct (over (max_rules c) (rules_occ s)); auto.
+Qed.
+
+Inductive prefix {A} : list A -> list A -> Prop :=
+| prefix_nil l : prefix [] l
+| prefix_cons a l l' : prefix l l' -> prefix (a :: l) (a :: l').
+
+Lemma prefix_refl {A} (l : list A) : prefix l l.
+Proof. induction l; constructor; auto. Qed.
+
+(* the limited run is the unlimited run, cut at the first instruction whose result exceeds the limits *)
+Lemma spec_run_fits c p ini e : forall items s,
+  (fits c p ini s items = true /\ spec_run c p ini e s items = spec_run no_caps p ini e s items) \/
+  (fits c p ini s items = false /\ is_limit (fst (snd (spec_run c p ini e s items))) /\
+   prefix (fst (spec_run c p ini e s items)) (fst (spec_run no_caps p ini e s items))).
+Proof.
+  induction items as [|x items IH]; intros s; [left; split; reflexivity|].
+  destruct x as [i|er| |]; try (left; split; reflexivity).
+  cbn [fits spec_run]. rewrite step_lim_no_caps. unfold step_lim.
+  destruct (spec_step p ini s i) as [[s' row]|er| |]; cbn [bind]; try (left; split; reflexivity).
+  unfold guard_ok.
+  destruct (guard_cases c ini s') as [Hg|[Hg|Hg]]; rewrite Hg; cbn [bind andb].
+  - destruct (IH s') as [(F & E)|(F & L & P)].
+    + left. split; [exact F|]. rewrite E. reflexivity.
+    + right. split; [exact F|].
+      destruct row as [r|];
+        destruct (spec_run c p ini e s' items) as [rows [o sf]];
+        destruct (spec_run no_caps p ini e s' items) as [rows' [o' sf']]; cbn [fst snd] in *;
+        split; auto. constructor. exact P.
+  - right. split; [reflexivity|]. split; [left; reflexivity|]. cbn [fst]. constructor.
+  - right. split; [reflexivity|]. split; [right; reflexivity|]. cbn [fst]. constructor.
+Qed.
+
+Lemma run_spec_fits c p init_addr e cie fde :
+  (fits_run c p init_addr cie fde = true /\
+   run_spec_lim c p init_addr e cie fde = run_spec p init_addr e cie fde) \/
+  (fits_run c p init_addr cie fde = false /\ is_limit (snd (run_spec_lim c p init_addr e cie fde)) /\
+   prefix (fst (run_spec_lim c p init_addr e cie fde)) (fst (run_spec p init_addr e cie fde))).
+Proof.
+  unfold fits_run, run_spec, run_spec_lim.
+  destruct (spec_run_fits c p None 0 cie init_state) as [(F & E)|(F & L & P)].
+  - rewrite F, E. cbn [andb].
+    destruct (spec_run no_caps p None 0 init_state cie) as [rows_c [[|er| |] sc]];
+      try (left; split; reflexivity).
+    rewrite guard_no_caps. unfold guard_ok.
+    destruct (guard_cases c (Some (s_rules sc)) (with_loc init_addr sc)) as [Hg|[Hg|Hg]]; rewrite Hg; cbn [andb].
+    + destruct (spec_run_fits c p (Some (s_rules sc)) e fde (with_loc init_addr sc)) as [(F2 & E2)|(F2 & L2 & P2)].
+      * left. split; [exact F2|]. rewrite E2. reflexivity.
+      * right. split; [exact F2|].
+        destruct (spec_run c p (Some (s_rules sc)) e (with_loc init_addr sc) fde) as [rows [o sf]].
+        destruct (spec_run no_caps p (Some (s_rules sc)) e (with_loc init_addr sc) fde) as [rows' [o' sf']].
+        cbn [fst snd] in *. auto.
+    + right. split; [reflexivity|]. split; [left; reflexivity|constructor].
+    + right. split; [reflexivity|]. split; [right; reflexivity|constructor].
+  - rewrite F. cbn [andb]. right. split; [reflexivity|].
+    destruct (spec_run c p None 0 init_state cie) as [rows_c [o_c sc]]. cbn [fst snd] in L.
+    destruct L as [-> | ->]; (split; [|constructor]); [left|right]; reflexivity.
+Qed.
+
+(* ---------- I: shape of the rows, proved once on the specification ---------- *)
+
+Definition span := (N * N)%type.
+Fixpoint chain (start : N) (l : list span) : Prop :=
+  match l with
+  | [] => True
+  | x :: t => fst x = start /\ chain (snd x) t
+  end.
+Definition ordered (x : span) : Prop := fst x <= snd x.
+
+(* contiguous from [init]; every row but the final one has start <= end; when the table
+   ended normally the final row ends at [end_addr] *)
+Definition shape (init end_addr : N) (l : list span) (o : outcome) : Prop :=
+  chain init l /\
+  match o with
+  | Done => exists l0 lastx, l = l0 ++ [lastx] /\ snd lastx = end_addr /\ Forall ordered l0
+  | _ => Forall ordered l
+  end.
+
+Definition sspan (r : srow) : span := (sr_start r, sr_end r).
+Definition mspan (r : row) : span := (r_start r, r_end r).
+
+Lemma spec_step_loc p ini s i s' orow :
+  spec_step p ini s i = Ok (s', orow) ->
+  match orow with
+  | Some row => sr_start row = s_loc s /\ sr_end row = s_loc s' /\ s_loc s <= s_loc s'
+  | None => s_loc s' = s_loc s
+  end.
+Proof.
+  destruct i; cbn [spec_step]; intros H;
+    repeat match type of H with
+           | (if ?x then _ else _) = _ => let E := fresh "E" in destruct x eqn:E; try discriminate
+           | (match ?x with _ => _ end) = _ => destruct x; try discriminate
+           end;
+    inversion H; subst; cbn; auto; try lia.
+Qed.
+
+Lemma spec_run_shape c p ini e : forall items s,
+  shape (s_loc s) e (map sspan (fst (spec_run c p ini e s items))) (fst (snd (spec_run c p ini e s items))).
+Proof.
+  induction items as [|x items IH]; intros s.
+  - cbn. split; [split; [reflexivity|exact I]|]. exists (@nil span). exists (s_loc s, e). repeat split. constructor.
+  - destruct x as [i|er| |]; cbn [spec_run]; try (cbn; split; [exact I|constructor]).
+    unfold step_lim. destruct (spec_step p ini s i) as [[s' orow]|er| |] eqn:Es; cbn [bind];
+      try (cbn; split; [exact I|constructor]).
+    destruct (guard c ini s') as [[]|er| |]; cbn [bind]; try (cbn; split; [exact I|constructor]).
+    apply spec_step_loc in Es. specialize (IH s').
+    destruct (spec_run c p ini e s' items) as [rows [o sf]]. cbn [fst snd] in *.
+    destruct orow as [row|].
+    + destruct Es as (E1 & E2 & E3). destruct IH as (C & T). cbn [map fst snd].
+      split; [cbn; rewrite E1, E2; auto|].
+      assert (Ho : ordered (sspan row)) by (unfold ordered, sspan; cbn; lia).
+      destruct o; try (constructor; assumption).
+      destruct T as (l0 & lastx & El & Ee & Fo). exists (sspan row :: l0), lastx.
+      rewrite El. repeat split; auto.
+    + rewrite <- Es. exact IH.
+Qed.
+
+Lemma run_spec_lim_shape c p init_addr e cie fde :
+  shape init_addr e (map sspan (fst (run_spec_lim c p init_addr e cie fde)))
+        (snd (run_spec_lim c p init_addr e cie fde)).
+Proof.
+  unfold run_spec_lim.
+  destruct (spec_run c p None 0 init_state cie) as [rows_c [[|er| |] sc]];
+    try (cbn; split; [exact I|constructor]).
+  destruct (guard c (Some (s_rules sc)) (with_loc init_addr sc)) as [[]|er| |];
+    try (cbn; split; [exact I|constructor]).
+  pose proof (spec_run_shape c p (Some (s_rules sc)) e fde (with_loc init_addr sc)) as H.
+  destruct (spec_run c p (Some (s_rules sc)) e (with_loc init_addr sc) fde) as [rows [o sf]].
+  exact H.
+Qed.
+
+Fixpoint nondec (l : list N) : Prop :=
+  match l with
+  | a :: (b :: _) as t => a <= b /\ nondec t
+  | _ => True
+  end.
+
+Lemma chain_ordered_nondec : forall l start, chain start l -> Forall ordered l -> nondec (map fst l).
+Proof.
+  induction l as [|x l IH]; intros start Hc Ho; [exact I|].
+  destruct l as [|y l]; [exact I|].
+  destruct Hc as (Hx & Hy & Hc). inversion Ho as [|? ? Ox Ol]; subst.
+  cbn [map nondec]. split; [unfold ordered in Ox; lia|].
+  apply (IH (snd x)); [split; auto|exact Ol].
+Qed.
+
+Lemma shape_nondec init e l o : shape init e l o -> nondec (map fst l).
+Proof.
+  intros (Hc & Ho). destruct o; [|eapply chain_ordered_nondec; eassumption ..].
+  destruct Ho as (l0 & lastx & -> & _ & Fo).
+  clear e. revert init Hc. induction l0 as [|x l0 IH]; intros init Hc; [exact I|].
+  inversion Fo as [|? ? Ox Ol]; subst.
+  destruct Hc as (Hx & Hc).
+  destruct l0 as [|y l0].
+  - cbn in *. destruct Hc as (Hy & _). unfold ordered in Ox. lia.
+  - cbn [app map nondec]. cbn [app chain] in Hc. destruct Hc as (Hy & Hc).
+    split; [unfold ordered in Ox; lia|].
+    apply (IH Ol (snd x)). cbn [app chain]. auto.
+Qed.
